@@ -15,6 +15,7 @@ import re
 from engine import extract as X
 from engine.core import Job
 from units.resolve import shapes
+from engine import replay as R
 
 REL = 'include/yorel/yomm2/core.hpp'
 REL_D = 'include/yorel/yomm2/detail.hpp'
@@ -256,6 +257,10 @@ def jobs(tier):
                                     'Policy::error as a logging stub; std::copy_n as its defining loop'],
                            assumptions=['exception propagation through operator() when the handler throws is C++ semantics outside the extracted code '
                                         '(no try / catch / noexcept on the path)'],
-                           extracted=[ex], props=['C02'], timeout=300))
+                           extracted=[ex], props=['C02'], timeout=300,
+                           replay=(lambda job, res, ob, s=s, amb=(hname == 'ambiguous_handler'):
+                                   R.run_generated_program('handler_%s_%d' % (s[:12], amb), R.shape_handler_program(s, amb),
+                                                           {'shape': s, 'handler': 'ambiguous' if amb else 'not_implemented'}))
+                           if len(s) <= 8 else None))
     out.append(deprecated_job())
     return out
